@@ -84,7 +84,8 @@ const TO_HOLDER: u64 = 2_000_000;
 const TO_CP: u64 = 900_000;
 const HTLC_SAT: u64 = 10_000;
 const CHANNEL_SAT: u64 = 3_000_000;
-const PUSH_SAT: u64 = 1_000_000; // channels with an incoming HTLC start with a balance on the other side
+const TO_THEM: u64 = CHANNEL_SAT - 2_000_000 - 1000; // their balance there (they pay the fee)
+const OUR_SAT: u64 = 2_000_000; // our starting balance in a channel that the counterparty funds
 
 // offsets inside a channel's block of transaction ids
 const FI1: u64 = 1;
@@ -390,9 +391,11 @@ impl Sess {
             (c.idx, c.id0.clone(), c.incoming)
         };
         let setup = ChannelSetup {
-            is_outbound: true,
+            // a channel with an incoming HTLC is funded by the counterparty (the policy does not let
+            // us push value in a channel we fund); the push is OUR starting balance
+            is_outbound: !incoming,
             channel_value_sat: CHANNEL_SAT,
-            push_value_msat: if incoming { PUSH_SAT * 1000 } else { 0 },
+            push_value_msat: if incoming { OUR_SAT * 1000 } else { 0 },
             funding_outpoint: OutPoint { txid: Txid::from_slice(&[2u8; 32]).unwrap(), vout: 0 },
             holder_selected_contest_delay: 6,
             holder_shutdown_script: None,
@@ -403,27 +406,41 @@ impl Sess {
         };
         let counterparty_keys = make_test_counterparty_keys(&node_ctx, &id0, CHANNEL_SAT);
         let mut chan_ctx = TestChannelContext { channel_id: id0.clone(), setup, counterparty_keys };
-        let stype = SpendType::P2wpkh;
-        let incoming = CHANNEL_SAT + 2_000_000 + idx;
-        let fee = 1000;
-        let change = incoming - CHANNEL_SAT - fee;
+        let base = 1000 * (idx + 1);
+        let nc = "NotCommitment".to_string();
         let mut tx_ctx = TestFundingTxContext::new();
-        tx_ctx.add_wallet_input(&node_ctx, stype, (10 + 2 * idx) as u32, incoming / 2);
-        tx_ctx.add_wallet_input(&node_ctx, stype, (11 + 2 * idx) as u32, incoming - incoming / 2);
-        tx_ctx.add_wallet_output(&node_ctx, stype, (1 + idx) as u32, change);
-        let vout = tx_ctx.add_channel_outpoint(&node_ctx, &chan_ctx, CHANNEL_SAT);
-        let tx = tx_ctx.to_tx();
+        let (tx, vout, fin): (Transaction, u32, Vec<String>) = if incoming {
+            // their funding transaction: inputs that are none of our business, no registered funding inputs
+            let out = make_test_funding_channel_outpoint(&node_ctx.node, &chan_ctx.setup, &id0, CHANNEL_SAT);
+            let ext = *self.txids.iter().find(|(_, v)| **v == EXT).unwrap().0;
+            let tx = Transaction {
+                version: Version::TWO,
+                lock_time: LockTime::ZERO,
+                input: vec![spend(OutPoint { txid: ext, vout: 100 + idx as u32 })],
+                output: vec![out],
+            };
+            (tx, 0, vec![])
+        } else {
+            let stype = SpendType::P2wpkh;
+            let incoming_sat = CHANNEL_SAT + 2_000_000 + idx;
+            let fee = 1000;
+            let change = incoming_sat - CHANNEL_SAT - fee;
+            tx_ctx.add_wallet_input(&node_ctx, stype, (10 + 2 * idx) as u32, incoming_sat / 2);
+            tx_ctx.add_wallet_input(&node_ctx, stype, (11 + 2 * idx) as u32, incoming_sat - incoming_sat / 2);
+            tx_ctx.add_wallet_output(&node_ctx, stype, (1 + idx) as u32, change);
+            let vout = tx_ctx.add_channel_outpoint(&node_ctx, &chan_ctx, CHANNEL_SAT);
+            let tx = tx_ctx.to_tx();
+            let fi: Vec<OutPoint> = tx.input.iter().map(|i| i.previous_output).collect();
+            self.txids.insert(fi[0].txid, base + FI1);
+            self.txids.insert(fi[1].txid, base + FI2);
+            self.put_tx(base + D, "double-spend", tx_spending(&[fi[0]], 1, base + 1), nc.clone());
+            let fin: Vec<String> = fi.iter().map(|o| self.coq_op(o)).collect();
+            (tx, vout, fin)
+        };
         let fo = OutPoint { txid: tx.compute_txid(), vout };
         chan_ctx.setup.funding_outpoint = fo;
-        let base = 1000 * (idx + 1);
-        let fi: Vec<OutPoint> = tx.input.iter().map(|i| i.previous_output).collect();
-        self.txids.insert(fi[0].txid, base + FI1);
-        self.txids.insert(fi[1].txid, base + FI2);
-        let nc = "NotCommitment".to_string();
         self.put_tx(base + F, "funding", tx.clone(), nc.clone());
-        self.put_tx(base + D, "double-spend", tx_spending(&[fi[0]], 1, base + 1), nc.clone());
         self.put_tx(base + M, "mutual-close", tx_spending(&[fo], 2, base + 3), nc.clone());
-        let fin: Vec<String> = fi.iter().map(|o| self.coq_op(o)).collect();
         let cfg_coq = format!("(mkcfg {} {} {})", base + F, vout, coq_list(&fin));
         let cfg_other_coq = format!("(mkcfg {} {} {})", base + F, vout + 1, coq_list(&fin));
         self.chan(key).prepared = Some(Prepared { chan_ctx, tx_ctx, funding: tx, fo, cfg_coq, cfg_other_coq });
@@ -515,20 +532,22 @@ impl Sess {
         let idx = self.chans[&key].idx;
         let base = 1000 * (idx + 1);
         let hinfo = self.incoming_htlc(key);
-        let to_holder = CHANNEL_SAT - PUSH_SAT - 1000;
+        let to_holder = OUR_SAT;
         let commitment = {
             let p = self.chans.get_mut(&key).unwrap().prepared.as_mut().unwrap();
-            let mut c0 = channel_commitment(&node_ctx, &p.chan_ctx, 0, 0, to_holder, PUSH_SAT, vec![], vec![]);
+            let mut c0 = channel_commitment(&node_ctx, &p.chan_ctx, 0, 0, to_holder, TO_THEM, vec![], vec![]);
             let (csig, hsigs) = counterparty_sign_holder_commitment(&node_ctx, &p.chan_ctx, &mut c0);
             validate_holder_commitment(&node_ctx, &p.chan_ctx, &c0, &csig, &hsigs).expect("valid holder commitment");
-            let mut tx = p.funding.clone();
-            let witvec = p.tx_ctx.sign(&node_ctx, &tx).expect("sign funding");
-            p.tx_ctx.validate_sig(&node_ctx, &mut tx, &witvec);
+            // the HTLC they offer first shows up in OUR commitment 1 (validated through the real entry point) ...
+            let mut c1 = channel_commitment(&node_ctx, &p.chan_ctx, 1, 0, to_holder, TO_THEM - HTLC_SAT, vec![], vec![hinfo.clone()]);
+            let (csig1, hsigs1) = counterparty_sign_holder_commitment(&node_ctx, &p.chan_ctx, &mut c1);
+            validate_holder_commitment(&node_ctx, &p.chan_ctx, &c1, &csig1, &hsigs1).expect("valid holder commitment 1");
+            // ... then in theirs
             node.with_channel(&p.chan_ctx.channel_id, |chan| {
-                chan.sign_counterparty_commitment_tx_phase2(&make_test_pubkey(11), 0, 0, to_holder, PUSH_SAT, vec![], vec![])?;
-                chan.sign_counterparty_commitment_tx_phase2(&make_test_pubkey(12), 1, 0, to_holder, PUSH_SAT - HTLC_SAT, vec![hinfo.clone()], vec![])?;
+                chan.sign_counterparty_commitment_tx_phase2(&make_test_pubkey(11), 0, 0, to_holder, TO_THEM, vec![], vec![])?;
+                chan.sign_counterparty_commitment_tx_phase2(&make_test_pubkey(12), 1, 0, to_holder, TO_THEM - HTLC_SAT, vec![hinfo.clone()], vec![])?;
                 let htlcs = lightning_signer::channel::Channel::htlcs_info2_to_oic(&vec![hinfo.clone()], &vec![]);
-                let ctx = chan.make_counterparty_commitment_tx(&make_test_pubkey(12), 1, 0, to_holder, PUSH_SAT - HTLC_SAT, htlcs);
+                let ctx = chan.make_counterparty_commitment_tx(&make_test_pubkey(12), 1, 0, to_holder, TO_THEM - HTLC_SAT, htlcs);
                 Ok(ctx.trust().built_transaction().transaction.clone())
             })
             .expect("counterparty commitments")
@@ -564,10 +583,10 @@ impl Sess {
         let id0 = self.chans[&key].id0.clone();
         let hinfo = self.incoming_htlc(key);
         let pre = self.preimage(key);
-        let to_holder = CHANNEL_SAT - PUSH_SAT - 1000;
+        let to_holder = OUR_SAT;
         node.with_channel(&id0, |chan| {
             chan.htlcs_fulfilled(vec![pre]);
-            chan.sign_counterparty_commitment_tx_phase2(&make_test_pubkey(12), 1, 0, to_holder, PUSH_SAT - HTLC_SAT, vec![hinfo.clone()], vec![])?;
+            chan.sign_counterparty_commitment_tx_phase2(&make_test_pubkey(12), 1, 0, to_holder, TO_THEM - HTLC_SAT, vec![hinfo.clone()], vec![])?;
             Ok(())
         })
         .expect("htlcs_fulfilled + commitment");
@@ -583,7 +602,8 @@ impl Sess {
             wrote = true;
         }
         self.given.insert(key);
-        self.jsteps.push(json!({"htlcs_fulfilled": [key.0, key.1], "then_a_request_that_writes_the_node_entry": wrote}));
+        let known = node.get_state().payments.get(&hinfo.payment_hash).map(|p| p.preimage.is_some());
+        self.jsteps.push(json!({"htlcs_fulfilled": [key.0, key.1], "then_a_request_that_writes_the_node_entry": wrote, "signer_has_payment_and_preimage": format!("{:?}", known)}));
         self.bump("fulfilled");
     }
 
